@@ -10,19 +10,19 @@ open Canopy.Gen.Evidence (slashBlocked slashCapped cappedPercent stakeAfterSlash
 
 /-! ## what slashing does not touch -/
 
-theorem applySlash_index (L : Ledger) (a : Addr) (v : Val) (c p : UInt64) (cs : List UInt64) :
-    (applySlash L a v c p cs).indexed = L.indexed ∧ (applySlash L a v c p cs).slashLog = L.slashLog := by
+theorem applySlash_index (m : UInt64) (L : Ledger) (a : Addr) (v : Val) (c p : UInt64) (cs : List UInt64) :
+    (applySlash m L a v c p cs).indexed = L.indexed ∧ (applySlash m L a v c p cs).slashLog = L.slashLog := by
   simp only [applySlash]
   split <;> exact ⟨rfl, rfl⟩
 
-theorem applySlash_tracker (L : Ledger) (a : Addr) (v : Val) (c p : UInt64) (cs : List UInt64) :
-    (applySlash L a v c p cs).tracker = L.tracker ∧
-    (applySlash L a v c p cs).charged = upd2 L.charged a c (L.charged a c + p.toNat) := by
+theorem applySlash_tracker (m : UInt64) (L : Ledger) (a : Addr) (v : Val) (c p : UInt64) (cs : List UInt64) :
+    (applySlash m L a v c p cs).tracker = L.tracker ∧
+    (applySlash m L a v c p cs).charged = upd2 L.charged a c (L.charged a c + p.toNat) := by
   simp only [applySlash]
   split <;> exact ⟨rfl, rfl⟩
 
-theorem applySlash_stake (L : Ledger) (a : Addr) (v : Val) (c p : UInt64) (cs : List UInt64) :
-    stakeOf (applySlash L a v c p cs) a = stakeAfterSlash v.stake p := by
+theorem applySlash_stake (m : UInt64) (L : Ledger) (a : Addr) (v : Val) (c p : UInt64) (cs : List UInt64) :
+    stakeOf (applySlash m L a v c p cs) a = stakeAfterSlash v.stake p := by
   unfold applySlash
   dsimp only
   split
@@ -40,8 +40,8 @@ theorem slashValidator_index (P : Params) (L : Ledger) (a : Addr) (v : Val) (c p
     · exact ⟨rfl, rfl⟩
     · split
       · exact ⟨rfl, rfl⟩
-      · exact applySlash_index _ _ _ _ _ _
-  · exact applySlash_index _ _ _ _ _ _
+      · exact applySlash_index _ _ _ _ _ _ _
+  · exact applySlash_index _ _ _ _ _ _ _
 
 theorem slashValidators_index (P : Params) (c p : UInt64) (as : List Addr) (L : Ledger) :
     (slashValidators P L c p as).indexed = L.indexed ∧ (slashValidators P L c p as).slashLog = L.slashLog := by
@@ -226,9 +226,9 @@ theorem slashValidator_scoped (P : Params) (hs : P.committeeScoped = true) (L : 
       refine ⟨_, ?_, rfl, ?_, ?_, ?_⟩
       · simp only [slashBlocked, ge_iff_le, decide_eq_true_eq, UInt64.not_le] at hb
         exact hb
-      · exact (applySlash_tracker _ _ _ _ _ _).1
-      · exact (applySlash_tracker _ _ _ _ _ _).2
-      · exact applySlash_stake _ _ _ _ _ _
+      · exact (applySlash_tracker _ _ _ _ _ _ _).1
+      · exact (applySlash_tracker _ _ _ _ _ _ _).2
+      · exact applySlash_stake _ _ _ _ _ _ _
 
 /-- arithmetic of one scoped slash: the new tracker value is the old plus the applied percentage, without
 wrap-around, and stays within the cap -/
